@@ -18,7 +18,7 @@ def run(ctx):
                 "non-zero stream offsets; non-trivial = sizeof answered and a build or parse succeeded, or a key was missing")
     nprog = 900 if quick else 14000
     from .. import universes as U
-    progs = [(p, rng.choice([{"k": 2}, {"k": 1}, {"k": 3}])) for p in U.systematic(rng, 0.4 if quick else 1.0, U.lookahead_wrappers())]
+    progs = [(p, rng.choice([{"k": 2}, {"k": 1}, {"k": 3}])) for p in U.systematic(rng, 0.4 if quick else 1.0, U.lookahead_wrappers() + U.lazy_wrappers())]
     for i in range(nprog):
         kw = rng.choice([{}, {"k": 2}, {"k": 1, "w": 3}, {"k": 0}, {"k": 3, "w": 1}])
         progs.append((gen.program(rng, rng.choice([1, 2, 2, 3]), kw or {"k": 1, "w": 1}, greedy_ok=rng.random() < 0.3), kw))
